@@ -454,18 +454,41 @@ Definition size_operand (b : item) : Z :=
 Record opcost := {
   c_base : Z;        (* charged first, before anything is inspected *)
   c_size : Z;        (* size-dependent part, charged and kept *)
-  c_transient : Z    (* charged while the operation runs and given back at its end *)
+  c_transient : Z;   (* charged while the operation runs and given back at its end *)
+  c_prepaid : bool   (* the memory of the results needs no gas of its own (CHECKPREDICATE:
+                        everything it leaves is paid for by what it consumed) *)
 }.
-Definition cost b s t := {| c_base := b; c_size := s; c_transient := t |}.
+Definition cost b s t := {| c_base := b; c_size := s; c_transient := t; c_prepaid := false |}.
 
 Definition top0 (d : stack) : item := nth 0 d [].
 Definition top1 (d : stack) : item := nth 1 d [].
 
-Definition spec_cost (op : N) (d : stack) : opcost :=
+(* CHECKPREDICATE  (args… n predicate limit):  the child VM gets [cp_limit] gas (an explicit
+   limit of 0 = everything left after the base charge of 256) and the [cp_args] as its
+   stack.  What the instruction costs beyond its net base of 64 is the child's own
+   consumption: the gas handed over, minus what comes back — the child's remaining run
+   limit and the memory of the stacks it leaves — plus the memory of the arguments, whose
+   refund went to the child. *)
+Definition cp_limit (gas : Z) (d : stack) : Z :=
+  let l := size_operand (top0 d) in if l =? 0 then gas - 256 else l.
+Definition cp_args (d : stack) : stack :=
+  let d3 := skipn 3 d in
+  let n := size_operand (nth 2 d []) in
+  firstn (Z.to_nat (if n =? 0 then Z.of_nat (length d3) else n)) d3.
+Definition cp_consumption (child : child_run) (gas : Z) (d : stack) : Z :=
+  let '(_, back, cd, ca) := child (top1 d) (cp_args d) (cp_limit gas d) in
+  cp_limit gas d - (back + mem cd + mem ca) + mem (cp_args d).
+
+Definition spec_cost (child : child_run) (gas : Z) (op : N) (d : stack) : opcost :=
   match op with
   | 0%N | 76%N | 77%N | 78%N => cost 1 0 0
   | 97%N | 99%N | 100%N | 105%N | 106%N => cost 1 0 0
-  | 192%N => cost 64 0 (192 + size_operand (top0 d))   (* without the child's own consumption: see C07 *)
+  | 192%N =>
+      let used := cp_consumption child gas d in
+      {| c_base := 64; c_size := used;
+         (* peak: the base charge of 256 and the child's limit must be available at once *)
+         c_transient := 256 + Z.max 0 (cp_limit gas d) - (64 + used);
+         c_prepaid := true |}
   | 107%N | 108%N | 109%N | 110%N => cost 2 0 0
   | 111%N => cost 3 0 0
   | 112%N | 113%N | 114%N => cost 2 0 0
@@ -498,7 +521,10 @@ Definition charge (c : opcost) : Z := c_base c + c_size c.
    stacks it leaves (a generous, simple sufficient bound) *)
 Definition gas_needed (c : opcost) (r : sem) : Z :=
   c_base c + c_size c + c_transient c +
-  match r with inr e => mem (e_data e) + mem (e_alt e) | inl _ => 0 end.
+  match r with
+  | inr e => if c_prepaid c then 0 else mem (e_data e) + mem (e_alt e)
+  | inl _ => 0
+  end.
 
 (* gas left after a successful instruction *)
 Definition gas_after (gas : Z) (c : opcost) (d a : stack) (e : effect) : Z :=
